@@ -192,6 +192,14 @@ pub fn replay(fctx: &fuzz::Ctx, seed: u64, reps: usize, rep: &mut Report, trace:
             }
             let script = base.script();
             let ip: IpAddr = "127.0.0.1".parse().unwrap();
+            // caller-supplied settings: none (then the module path is comparable too), or extra settings with some fields unset
+            let extras: Option<ExtraRequestSettings> = match rng.gen_range(0 .. 6) {
+                0 => Some(ExtraRequestSettings::default()),
+                1 => Some(ExtraRequestSettings::default().set_gather_players(gamedig::protocols::types::GatherToggle::Skip)),
+                2 => Some(ExtraRequestSettings::default().set_check_app_id(false).set_gather_rules(gamedig::protocols::types::GatherToggle::Enforce)),
+                _ => None,
+            };
+            let tsettings = if rng.gen_bool(0.3) { crate::valve::timeouts(1) } else { None };
             let port_eff = |default: u16| given.unwrap_or(default);
             let m = DEFAULT_MAX_OPS;
             // --- conversions to the module's representation
@@ -221,7 +229,7 @@ pub fn replay(fctx: &fuzz::Ctx, seed: u64, reps: usize, rep: &mut Report, trace:
             let conv_id = |v: &Value| strip_variants(v).clone();
             // --- generic path
             let g_rec = run_call_json(&script, m, || {
-                match query_with_timeout_and_extra_settings(game, &ip, given, None, None) {
+                match query_with_timeout_and_extra_settings(game, &ip, given, tsettings, extras.clone()) {
                     Ok(r) => Ok(serde_json::to_value(r.as_original()).unwrap()),
                     Err(e) => Err(format!("{:?}", e.kind)),
                 }
@@ -230,43 +238,66 @@ pub fn replay(fctx: &fuzz::Ctx, seed: u64, reps: usize, rep: &mut Report, trace:
             let sock = SocketAddr::new(ip, port_eff(game.default_port));
             let p_rec: Option<CallRecord> = match &game.protocol {
                 Protocol::Valve(engine) => {
-                    let gather = extra_to_valve_gather(&game.request_settings);
+                    // the caller's extra settings replace the definition's; a field left unset takes the documented default
+                    let gather = match &extras {
+                        None => extra_to_valve_gather(&game.request_settings),
+                        Some(x) => {
+                            let d = vp::GatheringSettings::default();
+                            vp::GatheringSettings {
+                                players: x.gather_players.unwrap_or(d.players),
+                                rules: x.gather_rules.unwrap_or(d.rules),
+                                check_app_id: x.check_app_id.unwrap_or(d.check_app_id),
+                            }
+                        }
+                    };
                     let e = *engine;
-                    Some(run_call(&script, m, || vp::query(&sock, e, Some(gather), None)))
+                    Some(run_call(&script, m, || vp::query(&sock, e, Some(gather), tsettings)))
                 }
                 Protocol::Gamespy(v) => {
                     Some(match v {
-                        gamespy::GameSpyVersion::One => run_call(&script, m, || gamespy::one::query(&sock, None)),
-                        gamespy::GameSpyVersion::Two => run_call(&script, m, || gamespy::two::query(&sock, None)),
-                        gamespy::GameSpyVersion::Three => run_call(&script, m, || gamespy::three::query(&sock, None)),
+                        gamespy::GameSpyVersion::One => run_call(&script, m, || gamespy::one::query(&sock, tsettings)),
+                        gamespy::GameSpyVersion::Two => run_call(&script, m, || gamespy::two::query(&sock, tsettings)),
+                        gamespy::GameSpyVersion::Three => run_call(&script, m, || gamespy::three::query(&sock, tsettings)),
                     })
                 }
                 Protocol::Quake(v) => {
                     Some(match v {
-                        quake::QuakeVersion::One => run_call(&script, m, || quake::one::query(&sock, None)),
-                        quake::QuakeVersion::Two => run_call(&script, m, || quake::two::query(&sock, None)),
-                        quake::QuakeVersion::Three => run_call(&script, m, || quake::three::query(&sock, None)),
+                        quake::QuakeVersion::One => run_call(&script, m, || quake::one::query(&sock, tsettings)),
+                        quake::QuakeVersion::Two => run_call(&script, m, || quake::two::query(&sock, tsettings)),
+                        quake::QuakeVersion::Three => run_call(&script, m, || quake::three::query(&sock, tsettings)),
                     })
                 }
-                Protocol::Unreal2 => Some(run_call(&script, m, || unreal2::query(&sock, &unreal2::GatheringSettings::default(), None))),
+                Protocol::Unreal2 => {
+                    let d = unreal2::GatheringSettings::default();
+                    let g = match &extras {
+                        None => d,
+                        Some(x) => unreal2::GatheringSettings {
+                            players: x.gather_players.unwrap_or(d.players),
+                            mutators_and_rules: x.gather_rules.unwrap_or(d.mutators_and_rules),
+                        },
+                    };
+                    Some(run_call(&script, m, || unreal2::query(&sock, &g, tsettings)))
+                }
                 Protocol::PROPRIETARY(p) => {
                     match p {
-                        P::TheShip => Some(run_call(&script, m, || vp::query(&sock, vp::Engine::new(2400), None, None))),
-                        P::Minecraft(None) => Some(run_call(&script, m, || minecraft::protocol::query(&sock, None, None))),
-                        P::Minecraft(Some(minecraft::Server::Java)) => Some(run_call(&script, m, || minecraft::protocol::query_java(&sock, None, None))),
-                        P::Minecraft(Some(minecraft::Server::Bedrock)) => Some(run_call(&script, m, || minecraft::protocol::query_bedrock(&sock, None))),
+                        P::TheShip => Some(run_call(&script, m, || vp::query(&sock, vp::Engine::new(2400), None, tsettings))),
+                        P::Minecraft(None) => Some(run_call(&script, m, || minecraft::protocol::query(&sock, tsettings, None))),
+                        P::Minecraft(Some(minecraft::Server::Java)) => Some(run_call(&script, m, || minecraft::protocol::query_java(&sock, tsettings, None))),
+                        P::Minecraft(Some(minecraft::Server::Bedrock)) => Some(run_call(&script, m, || minecraft::protocol::query_bedrock(&sock, tsettings))),
                         P::Minecraft(Some(minecraft::Server::Legacy(g))) => {
                             let g = *g;
-                            Some(run_call(&script, m, || minecraft::protocol::query_legacy_specific(g, &sock, None)))
+                            Some(run_call(&script, m, || minecraft::protocol::query_legacy_specific(g, &sock, tsettings)))
                         }
-                        P::Mindustry => Some(run_call(&script, m, || mindustry::protocol::query_with_retries(&sock, &None))),
+                        P::Mindustry => Some(run_call(&script, m, || mindustry::protocol::query_with_retries(&sock, &tsettings))),
                         // the game's own function is the protocol for these
                         _ => None,
                     }
                 }
             };
             // --- module path
-            let m_rec: Option<CallRecord> = if MODULE_IDS.contains(&id) {
+            let m_rec: Option<CallRecord> = if extras.is_some() || tsettings.is_some() {
+                None // the module functions take no settings
+            } else if MODULE_IDS.contains(&id) {
                 call_module(id, &script, &ip, given)
             } else {
                 match id {
@@ -294,7 +325,7 @@ pub fn replay(fctx: &fuzz::Ctx, seed: u64, reps: usize, rep: &mut Report, trace:
                 obs.push(("module", observe(r, &conv_id)));
             }
             rep.evaluations += 1;
-            rep.distinct.insert(hash_of(&(id, given.is_some(), behaviour)));
+            rep.distinct.insert(hash_of(&(id, given.is_some(), behaviour, extras.is_some(), tsettings.is_some())));
             trace.push(json!({"ev":"Case","id":id,"given":given.unwrap_or(0),"default":game.default_port,"paths":obs.len()}));
             for (p, o) in &obs {
                 trace.push(json!({"ev":"Obs","path":p,"port":o.port,"reqs":o.reqs,"res":o.res}));
@@ -324,6 +355,7 @@ pub fn replay(fctx: &fuzz::Ctx, seed: u64, reps: usize, rep: &mut Report, trace:
                     "C14",
                     &sig,
                     json!({"kind":"dispatch","id":id,"given":given,"behaviour":behaviour,"script":script,
+                           "extras": extras.as_ref().map(|x| serde_json::to_value(x).unwrap()), "retries": tsettings.map(|t| t.get_retries()),
                            "observations": obs.iter().map(|(p, o)| json!({"path":p,"port":o.port,"reqs":o.reqs,"res":o.res,
                                 "detail": o.detail.to_string().chars().take(700).collect::<String>()})).collect::<Vec<_>>()}),
                 );
